@@ -44,7 +44,7 @@ func init() { register(c13{}) }
 func (c13) ID() string { return "C13" }
 func (c13) Runs(tier string) int {
 	if tier == "quick" {
-		return 4000
+		return 8000
 	}
 	return 0
 }
